@@ -164,7 +164,7 @@ func c05(c *Ctx) {
 									rp2[k] = v
 								}
 								rp2["at"], rp2["model"], rp2["server"] = d.Path, d.Want, d.Got
-								c.R.Violate(caseID, d.Symptom, depthOf(d.Path), rp2)
+								c.R.Violate(caseID, d.Symptom, "role:"+jsonmap.RolePath(ctxMD, d.Path), rp2)
 							}
 						}
 						c.R.Decided(caseID)
